@@ -314,6 +314,31 @@ func runC18(c *fw.Ctx) {
 			}
 		}
 	}
+	// declarations that only feed one another through their origins (chains of 2..8), with and
+	// without a statement that uses the last one
+	for n := 2; n <= 8; n++ {
+		for used := 0; used < 2; used++ {
+			id := fmt.Sprintf("origin-chain/%d/%d", n, used)
+			if !c.Want(2_450_000+n*2+used, id) {
+				continue
+			}
+			var b strings.Builder
+			b.WriteString("vars {\n  account $v0\n")
+			for k := 1; k < n; k++ {
+				fmt.Fprintf(&b, "  account $v%d = meta($v%d, \"k\")\n", k, k-1)
+			}
+			b.WriteString("}\n")
+			if used == 1 {
+				fmt.Fprintf(&b, "set_tx_meta(\"k\", $v%d)\n", n-1)
+			}
+			for rep := 0; rep < 40; rep++ {
+				c.Count("origin_chain_texts", 1)
+				if !checkEditorText(c, b.String(), "origin-chain") {
+					return
+				}
+			}
+		}
+	}
 	// function names that are not built in, at every distance from the ones that are
 	{
 		names := []string{"set_tx_met", "set_tx_metaa", "set_txmeta", "set_meta", "set_acc_meta", "set_acca_meta", "set_account_met", "set_acount_meta",
